@@ -127,7 +127,10 @@ func (w *world) close() {
 
 // ---- the oracle for attacker replies ----
 
-var disclosure = []string{"CANARY", `"value"`, `"accessories"`, `"characteristics"`, `"aid"`, `"iid"`, "\xff\xd8\xff"}
+// The last entry is the start of a JPEG file as image/jpeg writes it (start-of-image marker plus the
+// quantisation-table segment header): seven bytes, so that the 384 random bytes of a pair-setup public
+// key or a random auth tag cannot contain it by chance (a three-byte marker did, once in ~10^5 replies).
+var disclosure = []string{"CANARY", `"value"`, `"accessories"`, `"characteristics"`, `"aid"`, `"iid"`, "\xff\xd8\xff\xdb\x00\x84\x00"}
 
 func discloses(b []byte) string {
 	for _, d := range disclosure {
